@@ -14,6 +14,11 @@ CPUS = {
     "1802.prefix68": (1, 3, 140, "quick", ["CLASS_MASK=0xff", "CLASS_VAL=0x68", "CLASS_ONLY"], False),
     "pdp11": (2, 6, 140, "thorough", ["STRINGS_ABSTRACT"], True),   # reads the following word before it knows the addressing mode needs it: locality is decided as 2-safety
     "tms9900": (2, 6, 140, "thorough", [], False),
+    "6800": (1, 3, 300, "thorough", [], False),
+    "6809": (1, 5, 300, "thorough", [], False),
+    "68hc08": (1, 5, 300, "thorough", ["STRINGS_ABSTRACT"], True),   # reads the second opcode byte before it knows the first is a prefix: 2-safety form
+    "8051": (1, 3, 300, "thorough", [], False),
+    "4004": (1, 2, 300, "thorough", [], False),
     # z80 (reads ahead, 2-safety form) was tried and does not finish (out of memory at 10 GB, timeout at 2400 s with 30 GB): not decided
 }
 GROUPS = []
@@ -26,7 +31,7 @@ for cpuname, (unit, maxlen, unw, tier, tables, two) in CPUS.items():
     GROUPS.append(Group(name="C08/disasm_%s" % cpuname, unity="C08/u_dis.cpp", entry="h_dis", c_sources=(["common/st_hash.c"] if "STRINGS_HASH" in tables else [] if "STRINGS_ABSTRACT" in tables else ["common/st_fmt.c"]),
                         functions=[("disasm_%s" % cpu, "disasm/%s.cpp" % cpu, "harness; table scans closed by unwinding %d with unwinding assertions" % unw),
                                    ("table_%s[]" % cpu, "table/%s.cpp" % cpu, "data")],
-                        defines=defs, unwind=unw, checks=CH, timeout=(2400 if two else 900), mem_gb=(30 if two else 10), tier=tier, extra_cbmc=(["--object-bits", "14"] if two else [])))
+                        defines=defs, unwind=unw, checks=CH, timeout=(2400 if two else 900), mem_gb=(30 if two else 10), tier=tier, extra_cbmc=(["--object-bits", "14"] if two or cpu in ("6809",) else [])))
 GROUPS.append(Group(name="C08/disasm_range_tms9900", unity="C08/u_range.cpp", entry="h_range",
                     functions=[("disasm_range_tms9900", "disasm/tms9900.cpp", "harness+2 loop-contracts, any range (function text extracted verbatim)"), ("disasm_tms9900", "disasm/tms9900.cpp", "replaced by its contract (length 2/4/6), discharged by C08/disasm_tms9900")],
                     loops="C08/range9900.loops.json", expected_loops=2, unwind=14, checks=CH, timeout=900))
